@@ -1165,7 +1165,7 @@ func c05Sizes(thorough bool) []int {
 // phases
 
 func c05Parallel(c *Ctx, n int, f func(i int)) {
-	workers := 8
+	workers := 4
 	if c.Thorough() {
 		workers = 16
 	}
@@ -1709,7 +1709,7 @@ var c05BaseTargets = []func() any{func() any { return new(any) }, func() any { r
 
 var c05TypedTargets = []func() any{func() any { return new([]int8) }, func() any { return new(map[string]int8) }, func() any { return new([3]int) },
 	func() any { return new(c05Typed) }, func() any { return new([]string) }, func() any { return new([]float32) }, func() any { return new(int8) },
-	func() any { return new([]c05Typed) }, func() any { return new([]uint16) }}
+	func() any { return new([]c05Typed) }, func() any { return new([]uint16) }, func() any { return new(c05From) }}
 
 // c05TypedDoc builds documents that produce semantic errors mid-stream for the typed targets: integers beyond
 // int8/uint8/int16, strings where numbers are expected and vice versa, arrays of the wrong length, floats beyond
@@ -2007,6 +2007,106 @@ func (e *c05Env) decodeStreamCase(in []byte, r *rand.Rand, optSel int, mk func()
 		}
 		recheck("at the end of the stream")
 	}
+	// transient faults between and inside the values of the stream: UnmarshalDecode must return the I/O error (never
+	// io.EOF or a value), and when the failed call consumed nothing, the retried call must give the fault-free result
+	mks := []func() any{mk, func() any { return new(c05From) }, func() any { return new(any) }}
+	for fi := 0; fi < 4; fi++ {
+		p := c05RandomPlan(r, len(in))
+		if fi == 0 {
+			p = c05Plan{kind: "chunks", name: "1-byte", fixed: 1, faultAt: -1}
+		}
+		p.faultAt = r.IntN(len(in)/2 + 6)
+		tmk := mks[fi%len(mks)]
+		fd := c05NewFeed(in, p)
+		var dec *jsontext.Decoder
+		if pp := guard(func() { dec = jsontext.NewDecoder(fd.rd, c05Opts(optSel&3)...) }); pp != nil {
+			return
+		}
+		e.cases.Add(1)
+	stream:
+		for i, sp := range spans {
+			for try := 0; ; try++ {
+				want, got := tmk(), tmk()
+				var werr, gerr error
+				var before, off int64
+				var depth int
+				var firedBefore bool
+				if pp := guard(func() {
+					werr = json.Unmarshal(append([]byte(nil), in[sp.lo:sp.hi]...), want, opts...)
+					before = dec.InputOffset()
+					firedBefore = fd.fired()
+					gerr = json.UnmarshalDecode(dec, got, opts...)
+					off, depth = dec.InputOffset(), dec.StackDepth()
+				}); pp != nil {
+					c.Panic("UnmarshalDecode", in, pp, map[string]any{"reader": p.String(), "value_index": i})
+					return
+				}
+				wcl, gcl := c05JErr(werr, 0), c05JErr(gerr, sp.lo)
+				firedNow := !firedBefore && fd.fired()
+				if errors.Is(gerr, c05ErrTransient) {
+					c.Hit("unmarshaldecode:fault-returned")
+					if off == before && depth == 0 && try < 3 {
+						continue // nothing consumed: the retry must behave as if the fault had not occurred
+					}
+					c.Hit("unmarshaldecode:fault-mid-value(excluded)")
+					break stream
+				}
+				if firedNow && gerr != nil && !(off == before && depth == 0) && wcl != gcl {
+					// The read fault struck inside the value and the call reports some OTHER error with the decoder
+					// part-way through the value.  Like SkipValue, UnmarshalDecode is not atomic under faults, so this
+					// is outside what the property promises; it is counted and sampled (see the report: on the
+					// unchanged tree `for dec.PeekKind() != ']'` in arshal_any.go turns the cached I/O error of
+					// PeekKind into "invalid character ']' at start of value").
+					c.Hit("unmarshaldecode:fault-mid-value-other-error(excluded):" + strings.SplitN(gcl, "@", 2)[0])
+					if c05MidValueFaultIsViolation {
+						c.Violate("fault-mismatch", "UnmarshalDecode:other-error-instead-of-io-error-mid-value", in, map[string]any{"input": trunc(string(in), 200),
+							"reader": p.String(), "value_index": i, "Unmarshal": wcl, "UnmarshalDecode": gcl, "InputOffset": off, "StackDepth": depth, "target": fmt.Sprintf("%T", want)})
+					} else {
+						c.Sample(map[string]any{"finding_candidate": "UnmarshalDecode under a transient fault inside a value returns a non-I/O error", "input": trunc(string(in), 120),
+							"reader": p.String(), "UnmarshalDecode": gcl, "fault_free": wcl, "InputOffset": off, "StackDepth": depth, "target": fmt.Sprintf("%T", want)})
+					}
+					break stream
+				}
+				field := ""
+				switch {
+				case wcl != gcl:
+					field = c05JErrField(wcl, gcl)
+				case !reflect.DeepEqual(want, got):
+					field = "value"
+				case gerr == nil && off != sp.hi:
+					field = "input-offset"
+				}
+				if field != "" {
+					c.Violate("fault-mismatch", "UnmarshalDecode:"+field+"-under-fault", in, map[string]any{"input": trunc(string(in), 200), "reader": p.String(), "value_index": i,
+						"value": trunc(string(in[sp.lo:sp.hi]), 100), "Unmarshal": wcl, "UnmarshalDecode": gcl, "InputOffset": off, "expected_offset": sp.hi,
+						"target": fmt.Sprintf("%T", want), "options": optSel, "retries": try})
+					break stream
+				}
+				if gerr != nil {
+					break stream
+				}
+				break
+			}
+		}
+	}
+}
+
+// c05MidValueFaultIsViolation: report a non-I/O error returned while a read fault struck INSIDE a value as a violation.
+// Off: UnmarshalDecode (like SkipValue) is not atomic under faults and the property promises nothing there; the
+// occurrences are counted in the distribution and sampled into the evidence.
+const c05MidValueFaultIsViolation = false
+
+// c05From decodes itself from the Decoder (UnmarshalerFrom): UnmarshalDecode probes for the end of the stream before
+// it calls such a method.
+type c05From struct{ Raw string }
+
+func (x *c05From) UnmarshalJSONFrom(dec *jsontext.Decoder) error {
+	v, err := dec.ReadValue()
+	if err != nil {
+		return err
+	}
+	x.Raw = string(v)
+	return nil
 }
 
 func (e *c05Env) phaseUnmarshal() {
@@ -2450,10 +2550,11 @@ func (e *c05Env) phaseStreamModel() {
 		return ecl
 	}
 	type sc struct {
-		line string
-		want []string
-		in   []byte
-		plan string
+		line   string
+		want   []string
+		in     []byte
+		plan   string
+		script string
 	}
 	var cases []sc
 	r := c05Rng(c, 10, 0)
@@ -2490,14 +2591,43 @@ func (e *c05Env) phaseStreamModel() {
 			rec := &c05RecReader{inner: &c05ChunkReader{data: data, plan: &pl, rs: p.seed | 1, sticky: true}}
 			var want []string
 			ok := true
+			// the script: ReadToken only, or a random word over ReadToken / ReadValue / SkipValue
+			script := strings.Repeat("T", ncalls)
+			if r.IntN(3) != 0 {
+				bs := make([]byte, ncalls)
+				for i := range bs {
+					bs[i] = "TTVSV"[r.IntN(5)]
+				}
+				script = string(bs)
+			}
 			if pp := guard(func() {
 				dec := jsontext.NewDecoder(rec, c05Opts(optSel)...)
 				for i := 0; i < ncalls; i++ {
-					tok, err := dec.ReadToken()
+					var err error
+					var res string
+					switch script[i] {
+					case 'T':
+						var tok jsontext.Token
+						tok, err = dec.ReadToken()
+						if err == nil {
+							res = fmt.Sprintf("T%d:%d", tok.Kind(), dec.InputOffset())
+						}
+					case 'V':
+						var v jsontext.Value
+						v, err = dec.ReadValue()
+						if err == nil {
+							res = fmt.Sprintf("T%d:%d:%d", v.Kind(), dec.InputOffset()-int64(len(v)), dec.InputOffset())
+						}
+					case 'S':
+						err = dec.SkipValue()
+						if err == nil {
+							res = fmt.Sprintf("S:%d", dec.InputOffset())
+						}
+					}
 					cl, off, _ := c05ErrClass(err)
 					switch {
 					case cl == "nil":
-						want = append(want, fmt.Sprintf("T%d:%d", tok.Kind(), dec.InputOffset()))
+						want = append(want, res)
 					case cl == "IO":
 						want = append(want, "F")
 					case cl == "EOF":
@@ -2507,18 +2637,18 @@ func (e *c05Env) phaseStreamModel() {
 					}
 				}
 			}); pp != nil {
-				c.Panic("stream-model:ReadToken", in, pp, map[string]any{"reader": p.String()})
+				c.Panic("stream-model:"+script, in, pp, map[string]any{"reader": p.String()})
 				ok = false
 			}
 			if !ok {
 				continue
 			}
-			line := fmt.Sprintf("dec stream %d %d %s", optSel, ncalls, strings.Join(rec.log, " "))
+			line := fmt.Sprintf("dec script %d %s %s", optSel, script, strings.Join(rec.log, " "))
 			if rest := data[rec.inner.pos:]; len(rest) > 0 && (len(rec.log) == 0 || rec.log[len(rec.log)-1] != "E") {
 				line += " " + hx(rest)
 			}
 			line += " E"
-			cases = append(cases, sc{line, want, in, p.String()})
+			cases = append(cases, sc{line, want, in, p.String() + " " + script, script})
 			c.Case("S|"+string(in)+"|"+p.String(), len(in) >= 2)
 		}
 	}
@@ -2535,7 +2665,7 @@ func (e *c05Env) phaseStreamModel() {
 		for j := range got {
 			f := strings.Split(got[j], ":")
 			switch {
-			case len(f) == 3 && strings.HasPrefix(f[0], "T"):
+			case len(f) == 3 && strings.HasPrefix(f[0], "T") && j < len(cs.script) && cs.script[j] == 'T':
 				got[j] = f[0] + ":" + f[2]
 			case f[0] == "Xioeof":
 				got[j] = "Xioeof"
@@ -2545,12 +2675,16 @@ func (e *c05Env) phaseStreamModel() {
 			bad++
 			c.Violate("corr-stream", "dec stream", cs.in, map[string]any{"line": trunc(cs.line, 300), "implementation": strings.Join(cs.want, ";"), "model": ans[i], "input": trunc(string(cs.in), 200), "reader": cs.plan})
 		}
-		for _, w := range cs.want {
-			c.Hit("corr:stream:" + strings.SplitN(strings.SplitN(w, ":", 2)[0], "1", 2)[0][:1])
+		for j, w := range cs.want {
+			call := "T"
+			if j < len(cs.script) {
+				call = cs.script[j : j+1]
+			}
+			c.Hit("corr:stream:" + call + "->" + w[:1])
 		}
 	}
 	c.HitN("corr:stream-lines", int64(len(cases)))
-	c.Note("phase S: %d runs of %d ReadToken calls of the real Decoder over recorded reader events vs the streaming model, %d disagreements", len(cases), ncalls, bad)
+	c.Note("phase S: %d runs of %d calls (ReadToken only, or random words over ReadToken/ReadValue/SkipValue) of the real Decoder over recorded reader events vs the streaming model, %d disagreements", len(cases), ncalls, bad)
 }
 
 // c05Replay re-runs the single case recorded in a replay file written by Violate.
